@@ -5,7 +5,9 @@
    the wallet — an address list and a signing function, constrained only by [wallet_sound], the
    conclusion of C08 ∘ C01 — the backend (ANY function from the frame it sees to an HTTP reply or a
    transport failure) and the chain id.  Every theorem below holds for all of them, for all request
-   trees, and — for batches — for every completion order of the member goroutines.
+   trees, and — for batches — for every completion order of the member goroutines.  Section 8
+   (theorems C09_fswallet_...) instantiates the wallet with property C08's model of pkg/fswallet and derives the
+   wallet hypotheses from C08's theorems (proofs in Rpc/WithWallet.v).
 
    Vocabulary: [count_frame a] is eth_getTransactionCount(a, "pending"); [raw_frame raw] is
    eth_sendRawTransaction("0x" ++ hex raw); [raw_recovers_to H ecrecover raw chain from fm f] says raw
@@ -345,6 +347,328 @@ Qed.
 Example C09_chain_id_nonvacuous :
   Start ex_parse (fun _ => reply_result JNull (JStr (bs "0x7e6"))) (-1)%Z = (Ok 2022%Z, [net_version_frame]).
 Proof. vm_compute. reflexivity. Qed.
+
+(* =================================================================================================
+   8. (round 4) C09 ∘ C08: the proxy with the wallet it really runs — the file-system wallet of
+      pkg/fswallet as modelled for property C08 (Wallet/Model.v).  Rpc/WithWallet.v DEFINES the abstract
+      wallet of Rpc/Model.v from a state s of that wallet,
+          accounts  := fs_accounts s            = fswallet.GetAccounts
+          sign_with := fs_sign_with E c s       = getSignerForAddr (GetWalletFile), then the external
+                                                  signer sign_tx (Transaction.Sign(keypair, chainID)),
+      and the theorems below hold in EVERY state [fs_state E c fs h]: a fresh wallet over any file system
+      fs followed by any history h of wallet operations (scans, earlier requests and their cache fills,
+      any change of the file system, listener events, cache evictions).  The wallet hypotheses of
+      theorems 1 and 2 (wallet_sound; sign_with <> Panic) are no longer assumed but derived from C08's
+      theorems; what remains is named in each statement:
+        signer_sound E H ecrecover   the external signer's law (ECDSA + wire format, property C01): what
+                                     key k signs is the EIP wire format of the requested fields and
+                                     recovers to the address of k
+        ext_nopanic E                the keystore reader (C15) and the signers do not panic
+        fs_nopanic fs, ops_ok h      the OS calls (ReadDir, ReadFile) do not panic, on the initial file
+                                     system and on every later one
+      (E is Wallet.Model.ext at tx := transaction * Z, stx := bytes; c the wallet configuration.) *)
+From FFS Require Import Rpc.WithWallet.
+
+(* 8a. The hypothesis [wallet_sound] of theorems 1 / 1c / 2, for the concrete wallet. *)
+Theorem C09_fswallet_wallet_sound :
+  forall (key doc tsig : Type) (E : W.ext key (transaction * Z) bytes doc tsig) (c : W.config) H ecrecover,
+    signer_sound E H ecrecover ->
+    forall fs h chain,
+      wallet_sound H ecrecover (fs_accounts (fs_state E c fs h)) (fs_sign_with E c (fs_state E c fs h)) chain.
+Proof. exact (@fs_wallet_sound). Qed.
+Print Assumptions C09_fswallet_wallet_sound.
+
+(* 8b. The hypothesis [sign_with <> Panic] of theorems 1 / 1c (and of C16's totality theorem). *)
+Theorem C09_fswallet_sign_never_panics :
+  forall (key doc tsig : Type) (E : W.ext key (transaction * Z) bytes doc tsig) (c : W.config) fs h,
+    WP3.ext_nopanic key (transaction * Z)%type bytes doc tsig E -> WP3.fs_nopanic fs -> ops_ok h ->
+    forall a t chain, fs_sign_with E c (fs_state E c fs h) a t chain <> Panic.
+Proof. exact (@fs_sign_nopanic). Qed.
+Print Assumptions C09_fswallet_sign_never_panics.
+
+(* 8c. "A signature returned for address a is by the key of a": the bytes are what the external signer
+       returned for a key k whose address is a, a is listed, and k is the entry cached under a's string or
+       the key read from the file the directory scan associated with a (key_of_from). *)
+Theorem C09_fswallet_signature_by_key_of_from :
+  forall (key doc tsig : Type) (E : W.ext key (transaction * Z) bytes doc tsig) (c : W.config) fs h a t chain raw,
+    fs_sign_with E c (fs_state E c fs h) a t chain = Ok raw ->
+    exists k, key_of_from E c (fs_state E c fs h) a k /\ W.sign_tx key (transaction * Z)%type bytes doc tsig E k (t, chain) = Ok raw.
+Proof. exact (@fs_sign_key). Qed.
+Print Assumptions C09_fswallet_signature_by_key_of_from.
+
+(* 8d. The two models meet.  Both transcribe ethtypes.Address0xHex.SetString and they agree; hence the
+       proxy model's wallet_Sign (its own parse of `from`, then sign_with) gives the same class of result,
+       and the same bytes, as the wallet model's Sign on the raw `from` (its own parse), where raw is any
+       text that encoding/json decodes to the string the tree f holds (json_string_law). *)
+Theorem C09_fswallet_models_meet :
+  (forall s, address_of_string s = match W.parse_address s with Some a => Ok a | None => Err EJson end) /\
+  (forall (key doc tsig : Type) (E : W.ext key (transaction * Z) bytes doc tsig) (c : W.config)
+          (s : W.state key) chain tx f raw,
+     tx_from tx = Some f -> json_string_law E f raw ->
+     res_same (wallet_Sign (fs_sign_with E c s) chain tx)
+              (snd (W.Sign key (transaction * Z)%type bytes doc tsig E c s raw (tx, chain)))).
+Proof. split; [exact address_parsers_agree|exact (@wallet_Sign_is_Sign)]. Qed.
+Print Assumptions C09_fswallet_models_meet.
+
+(* 8e. Theorem 1 for the concrete wallet: additionally the submitted bytes are the external signer's
+       output for the key file owning `from`. *)
+Theorem C09_fswallet_send_tx :
+  forall (key doc tsig : Type) (E : W.ext key (transaction * Z) bytes doc tsig) (c : W.config)
+         parse_int backend chain H ecrecover fs h rq id p0 rest tx f a,
+    let s := fs_state E c fs h in
+    signer_sound E H ecrecover ->
+    WP3.ext_nopanic key (transaction * Z)%type bytes doc tsig E -> WP3.fs_nopanic fs -> ops_ok h ->
+    rq_id rq = Some id -> rq_method rq = bs "eth_sendTransaction" -> rq_params rq = p0 :: rest ->
+    decode_transaction parse_int p0 = Ok tx -> tx_from tx = Some f -> dec_address f = Ok a ->
+    exists resp err frames,
+      fs_processRPC E c parse_int backend chain s (Some rq) = Ok (Some resp, err, frames) /\
+      rs_id resp = Some id /\
+      ((exists nonce raw k,
+          frames = pre_frames tx a ++ [raw_frame raw] /\
+          nonce_source parse_int backend tx a nonce (pre_frames tx a) /\
+          key_of_from E c s a k /\
+          W.sign_tx key (transaction * Z)%type bytes doc tsig E k (set_nonce tx nonce, chain) = Ok raw /\
+          raw_recovers_to H ecrecover raw (Z.to_N chain) a (requested_format tx)
+                          (requested_fields (set_nonce tx nonce)) /\
+          (resp, err) = fst (SyncRequest backend (send_raw_request rq raw)))
+       \/ (frames = pre_frames tx a /\ err = true /\ is_proxy_error resp (Some id))).
+Proof. exact (@fs_send_tx). Qed.
+Print Assumptions C09_fswallet_send_tx.
+
+(* 8f. Only-if, with NO hypothesis: in every wallet state, a raw-transaction frame of an
+       eth_sendTransaction request was signed by the key file owning its `from` (signed_by_owner: first
+       parameter decoded, `from` parsed to a, nonce supplied or backend-reported, key_of_from s a k, bytes =
+       signer's output for k).  With the signer's law they recover to `from` with the requested fields. *)
+Theorem C09_fswallet_raw_only_if_owner :
+  forall (key doc tsig : Type) (E : W.ext key (transaction * Z) bytes doc tsig) (c : W.config)
+         parse_int backend chain,
+    (forall fs h rq o fr,
+       let s := fs_state E c fs h in
+       rq_method rq = bs "eth_sendTransaction" ->
+       fs_processRPC E c parse_int backend chain s (Some rq) = Ok o -> In fr (o_frames o) -> is_raw_frame fr = true ->
+       signed_by_owner E c parse_int backend chain s rq fr)
+    /\
+    (forall H ecrecover s rq fr,
+       signer_sound E H ecrecover -> signed_by_owner E c parse_int backend chain s rq fr ->
+       exists p0 rest tx f a nonce raw,
+         rq_params rq = p0 :: rest /\ decode_transaction parse_int p0 = Ok tx /\
+         tx_from tx = Some f /\ dec_address f = Ok a /\ In a (fs_accounts s) /\ fr = raw_frame raw /\
+         raw_recovers_to H ecrecover raw (Z.to_N chain) a (requested_format tx) (requested_fields (set_nonce tx nonce))).
+Proof.
+  intros key doc tsig E c parse_int backend chain. split.
+  - exact (fs_raw_only_if_owner E c parse_int backend chain).
+  - exact (signed_by_owner_recovers E c parse_int backend chain).
+Qed.
+Print Assumptions C09_fswallet_raw_only_if_owner.
+
+(* 8g. Nothing is submitted when the wallet refuses — whatever the reason (GetWalletFile does not return a
+       key: not listed, file gone / unreadable, no or wrong password, not a key file, another address's
+       key): only the pending-count query (iff no nonce was supplied) was made, no raw frame, error object
+       under the caller's id.  Spelt out for C08's two named cases: an address GetAccounts does not list
+       (C08_unlisted_address_refused, any reachable state) and a listed address whose file holds another
+       address's key (C08_foreign_key_refused, any state). *)
+Theorem C09_fswallet_nothing_when_refused :
+  forall (key doc tsig : Type) (E : W.ext key (transaction * Z) bytes doc tsig) (c : W.config)
+         parse_int backend chain rq id o p0 rest tx f a,
+    rq_id rq = Some id -> rq_method rq = bs "eth_sendTransaction" ->
+    rq_params rq = p0 :: rest -> decode_transaction parse_int p0 = Ok tx ->
+    tx_from tx = Some f -> dec_address f = Ok a ->
+    let conclusion :=
+      o_frames o = pre_frames tx a /\ (forall fr, In fr (o_frames o) -> is_raw_frame fr = false) /\
+      o_err o = true /\ exists resp, o_resp o = Some resp /\ is_proxy_error resp (Some id) in
+    (forall s : W.state key,
+       fs_processRPC E c parse_int backend chain s (Some rq) = Ok o ->
+       (forall k, snd (W.GetWalletFile key (transaction * Z)%type bytes doc tsig E c s a) <> Ok k) -> conclusion)
+    /\
+    (forall fs h,
+       let s := fs_state E c fs h in
+       fs_processRPC E c parse_int backend chain s (Some rq) = Ok o -> ~ In a (fs_accounts s) -> conclusion)
+    /\
+    (forall (s : W.state key) fn k,
+       fs_processRPC E c parse_int backend chain s (Some rq) = Ok o ->
+       W.assoc_get (W.addr_string a) (W.st_cache key s) = None ->
+       W.assoc_get a (W.st_map key s) = Some fn ->
+       W.loadWalletFile key (transaction * Z)%type bytes doc tsig E c (W.st_fs key s) a
+                        (W.path_join key (transaction * Z)%type bytes doc tsig E (W.c_path c) fn) = Ok k ->
+       W.addr_of key (transaction * Z)%type bytes doc tsig E k <> a -> conclusion).
+Proof.
+  intros key doc tsig E c parse_int backend chain rq id o p0 rest tx f a Hi Hm Hp Hd Hf Ha. cbv zeta. split; [|split].
+  - intros s Ho Hr. exact (fs_nothing_when_refused E c parse_int backend chain s rq id o p0 rest tx f a Hi Hm Ho Hp Hd Hf Ha Hr).
+  - intros fs h Ho Hn. exact (fs_nothing_when_unlisted E c parse_int backend chain fs h rq id o p0 rest tx f a Hi Hm Ho Hp Hd Hf Ha Hn).
+  - intros s fn k Ho H1 H2 H3 H4.
+    exact (fs_nothing_when_foreign_key E c parse_int backend chain s rq id o p0 rest tx f a fn k Hi Hm Ho Hp Hd Hf Ha H1 H2 H3 H4).
+Qed.
+Print Assumptions C09_fswallet_nothing_when_refused.
+
+(* 8h. Theorem 3 for the concrete wallet: eth_accounts answers with fswallet.GetAccounts, which never
+       holds a duplicate (C08_accounts_no_duplicates) and, on a wallet directory that does not change, is
+       exactly the addresses named by the matching regular files once a scan has happened
+       (C08_accounts_exact_any_history; regex_law / constructed / names_ok as there). *)
+Theorem C09_fswallet_accounts :
+  forall (key doc tsig : Type) (E : W.ext key (transaction * Z) bytes doc tsig) (c : W.config)
+         parse_int backend chain fs h rq id,
+    let s := fs_state E c fs h in
+    rq_id rq = Some id ->
+    rq_method rq = bs "eth_accounts" \/ rq_method rq = bs "personal_accounts" ->
+    fs_processRPC E c parse_int backend chain s (Some rq)
+    = Ok (Some (mkResp (bs "2.0") (Some id) (Some (JArr (map address_json (fs_accounts s)))) None [] None), false, [])
+    /\ NoDup (fs_accounts s)
+    /\ (forall files,
+          WP2.regex_law key (transaction * Z)%type bytes doc tsig E ->
+          WP2.constructed key (transaction * Z)%type bytes doc tsig E c ->
+          W.fs_readdir fs (W.c_path c) = Ok files -> WP2.names_ok files ->
+          WP2.static (transaction * Z)%type doc h = true ->
+          fs_accounts s = if WP2.refreshed (transaction * Z)%type doc h
+                          then WS.spec_accounts (WP2.rule_of key (transaction * Z)%type bytes doc tsig E c) files else []).
+Proof. exact (@fs_accounts_reply). Qed.
+Print Assumptions C09_fswallet_accounts.
+
+(* 8i. No panic: every body, every backend, every completion order that is a permutation of the members of
+       the batch the body decodes to (order_ok), in every wallet state. *)
+Theorem C09_fswallet_no_panic :
+  forall (key doc tsig : Type) (E : W.ext key (transaction * Z) bytes doc tsig) (c : W.config)
+         parse_int lex backend chain fs h body order,
+    WP3.ext_nopanic key (transaction * Z)%type bytes doc tsig E -> WP3.fs_nopanic fs -> ops_ok h ->
+    order_ok lex body order ->
+    fs_rpcHandler E c parse_int lex backend chain (fs_state E c fs h) body order <> Panic.
+Proof. exact (@fs_handler_total). Qed.
+Print Assumptions C09_fswallet_no_panic.
+
+(* 8j. Request histories.  A history is a list of (what happened to the wallet since the previous request —
+       ANY list of wallet operations, which covers the cache fills of the earlier requests —, body,
+       completion order); [serve] threads the wallet state through it and answers each body with the proxy
+       model over the wallet in the state reached.  For EVERY history against a fresh wallet over any file
+       system: each state met is a reachable one, no request panics, and every eth_sendRawTransaction frame
+       that reached the backend is justified (raw_frame_justified): it is a caller's own
+       eth_sendRawTransaction request relayed unchanged, or the submission of an eth_sendTransaction member
+       of that body signed by the key file owning its `from` in the state the request met (8f) — so when
+       the wallet refuses, nothing was submitted. *)
+Theorem C09_fswallet_history :
+  forall (key doc tsig : Type) (E : W.ext key (transaction * Z) bytes doc tsig) (c : W.config)
+         parse_int lex backend chain fs (hist : list request),
+    WP3.ext_nopanic key (transaction * Z)%type bytes doc tsig E -> WP3.fs_nopanic fs -> history_ok lex hist ->
+    Forall (reply_safe E c parse_int lex backend chain fs)
+           (serve E c parse_int lex backend chain (W.init_state key fs) hist).
+Proof. exact (@fs_history_safe). Qed.
+Print Assumptions C09_fswallet_history.
+
+(* ---------- non-vacuity of section 8: a concrete file-system wallet behind the proxy ----------
+   Keys are identified with their address; a key file's content is the address of the key it holds; every
+   password file must read "pw"; the external signer is the toy signer of C09_wallet_hypothesis_satisfiable
+   (only the key of A = 0x11…11 signs, with the fixed signature the toy ecrecover maps back to A).  The
+   directory k holds  1111…11.key (the key of A, correct)  and  2222…22.key (again the key of A, stored
+   under B's name), with their password files. *)
+Definition wA : bytes := ex_addr.
+Definition wB : bytes := repeat x22 20.
+Definition wA' : bytes := repeat x11 19 ++ [x10].          (* differs from A in the last digit: not listed *)
+Definition whexA : bytes := repeat x31 40.
+Definition whexB : bytes := repeat x32 40.
+
+Definition wE : W.ext bytes (transaction * Z) bytes unit unit :=
+  {| W.re_compile := fun _ => Some 2%nat;
+     W.re_find := fun _ name => Some [name; name];
+     W.tmpl_parse_ok := fun _ => true;
+     W.meta_parse := fun _ _ => true;
+     W.tmpl_exec := fun _ _ t => (t, true);
+     W.json_string := fun raw => Some raw;
+     W.trim_space := fun s => s;
+     W.path_join := fun a b => a ++ bs "/" ++ b;
+     W.read_wallet := fun content pw => if bytes_eqb pw (bs "pw") then Ok content else Err 1%nat;
+     W.addr_of := fun k => k;
+     W.sign_tx := fun k tc => ex_sign k (fst tc) (snd tc);
+     W.sign_td := fun _ _ => Ok tt |}.
+
+Definition wc : W.config :=
+  {| W.c_path := bs "k"; W.c_default_pw_file := []; W.c_regex := []; W.c_primary_ext := bs ".key";
+     W.c_pw_ext := bs ".pw"; W.c_pw_path := []; W.c_pw_trim := true; W.c_with0x := false;
+     W.c_meta_format := bs "auto"; W.c_key_prop := []; W.c_pw_prop := [] |}.
+
+Definition wfiles : list (bytes * bool) :=
+  [ (whexA ++ bs ".key", false); (whexA ++ bs ".pw", false);
+    (whexB ++ bs ".key", false); (whexB ++ bs ".pw", false); (bs "sub", true) ].
+
+Definition wfs : W.fsys :=
+  {| W.fs_readdir := fun d => if bytes_eqb d (bs "k") then Ok wfiles else Err 1%nat;
+     W.fs_readfile := fun p =>
+       if bytes_eqb p (bs "k/" ++ whexA ++ bs ".key") then Ok wA
+       else if bytes_eqb p (bs "k/" ++ whexB ++ bs ".key") then Ok wA
+       else if bytes_eqb p (bs "k/" ++ whexA ++ bs ".pw") then Ok (bs "pw")
+       else if bytes_eqb p (bs "k/" ++ whexB ++ bs ".pw") then Ok (bs "pw")
+       else Err 1%nat |}.
+
+Definition w_tx (from : bytes) (nonce : list (bytes * json)) : json :=
+  JObj ([(bs "from", JStr (hex0x from)); (bs "to", JStr (hex0x (repeat x22 20)));
+         (bs "gas", JStr (bs "0x5208")); (bs "maxFeePerGas", JStr (bs "0x64"))] ++ nonce).
+Definition w_send (id : String.string) (from : bytes) (nonce : list (bytes * json)) : json :=
+  request_tree (bs "2.0") (JNum (bs id)) (bs "eth_sendTransaction") [w_tx from nonce].
+Definition w_own_raw : json :=
+  request_tree (bs "2.0") (JNum (bs "40")) (bs "eth_sendRawTransaction") [JStr (bs "0xf86b")].
+
+(* the lexer of the example: the bodies "1", "2", "3" are single requests, "[4" is a batch of two *)
+Definition w_lex (body : bytes) : option json :=
+  if bytes_eqb body (bs "1") then Some (w_send "1" wA [])
+  else if bytes_eqb body (bs "2") then Some (w_send "2" wB [])
+  else if bytes_eqb body (bs "3") then Some (w_send "3" wA' [])
+  else if bytes_eqb body (bs "[4") then Some (JArr [w_own_raw; w_send "41" wA [(bs "nonce", JStr (bs "0x7"))]])
+  else None.
+
+(* scan; request from A; [A's key is now cached]; request from B (its file holds A's key); request from
+   the unlisted A'; a batch completing in the order 1,0: the caller's own raw transaction and a request from
+   A with a nonce *)
+Definition w_hist : list (@request unit) :=
+  [ ([W.ORefresh _ _], bs "1", []);
+    ([W.OGetWalletFile _ _ wA], bs "2", []);
+    ([], bs "3", []);
+    ([W.OEvict _ _ (W.addr_string wA)], bs "[4", [1; 0]%nat) ].
+
+Definition w_summary (x : W.state bytes * bytes * res http_reply) : option (N * list (list bytes)) :=
+  match snd x with
+  | Ok (status, _, traces) => Some (status, map (map f_method) traces)
+  | _ => None
+  end.
+
+(* the hypotheses of 8a–8j hold for it ... *)
+Example C09_fswallet_hypotheses_satisfiable :
+  signer_sound wE (fun _ => []) ex_ecrecover /\
+  WP3.ext_nopanic _ _ _ _ _ wE /\ WP3.fs_nopanic wfs /\ history_ok w_lex w_hist.
+Proof.
+  split; [|split; [|split]].
+  - intros k t chain raw Hs. cbn [W.sign_tx wE fst snd] in Hs. unfold ex_sign in Hs.
+    destruct (bytes_eqb_spec k ex_addr) as [->|]; [|discriminate].
+    injection Hs as <-. exists 1%N, 5%N, 7%N. repeat split; reflexivity.
+  - split; [|split].
+    + intros content pw. cbn [W.read_wallet wE]. destruct (bytes_eqb pw (bs "pw")); discriminate.
+    + intros k t. cbn [W.sign_tx wE]. unfold ex_sign. destruct (bytes_eqb k ex_addr); discriminate.
+    + intros k d. discriminate.
+  - split.
+    + intros d. cbn [W.fs_readdir wfs]. destruct (bytes_eqb d (bs "k")); discriminate.
+    + intros p. cbn [W.fs_readfile wfs]. repeat (match goal with |- context [if ?b then _ else _] => destruct b end; try discriminate).
+  - repeat constructor; try exact I;
+      intros t ms Hl Hd; vm_compute in Hl; injection Hl as <-; vm_compute in Hd; try discriminate.
+    injection Hd as <-.
+    change (Permutation (1 :: [0]) ([0] ++ 1 :: []))%nat. apply Permutation_cons_app. apply Permutation_refl.
+Qed.
+
+(* ... and the history goes as the theorems say: A's request makes the count query and one submission; B's
+   (foreign key) and the unlisted address's make the count query only and fail; in the batch the caller's
+   own raw transaction is relayed and A's request (nonce supplied) is submitted without a count query.
+   The key that signed for A is the one key_of_from names. *)
+Example C09_fswallet_history_nonvacuous :
+  map w_summary (serve wE wc ex_parse w_lex ex_backend 2022%Z (W.init_state bytes wfs) w_hist) =
+  [ Some (200%N, [[bs "eth_getTransactionCount"; bs "eth_sendRawTransaction"]]);
+    Some (500%N, [[bs "eth_getTransactionCount"]]);
+    Some (500%N, [[bs "eth_getTransactionCount"]]);
+    Some (200%N, [[bs "eth_sendRawTransaction"]; [bs "eth_sendRawTransaction"]]) ] /\
+  key_of_from wE wc (fs_state wE wc wfs [W.ORefresh _ _]) wA wA /\
+  fs_accounts (fs_state wE wc wfs [W.ORefresh _ _]) = [wA; wB] /\
+  (forall k, snd (W.GetWalletFile _ _ _ _ _ wE wc (fs_state wE wc wfs [W.ORefresh _ _; W.OGetWalletFile _ _ wA]) wB) <> Ok k).
+Proof.
+  split; [vm_compute; reflexivity|]. split; [|split].
+  - split; [reflexivity|]. split; [vm_compute; auto|].
+    right. exists (whexA ++ bs ".key"). repeat split; vm_compute; reflexivity.
+  - vm_compute. reflexivity.
+  - intros k. vm_compute. discriminate.
+Qed.
 
 (* Tie of the hand-written JSON-RPC error codes of Rpc/Model.v to the source.  Gen/Consts.v is
    regenerated on every run by the translator harness/cmd/gen_consts from the `const` declarations
